@@ -5,3 +5,5 @@ open Photon.Http
 #print axioms C13_chunked_roundtrip
 #print axioms C13_chunked_inside_input
 #print axioms C13_length_body
+#print axioms C13_incremental_search
+#print axioms findSub_lookback
